@@ -165,13 +165,17 @@ Script(m) ==
          <<[op |-> "blocked", rl |-> <<>>, by |-> "none", open |-> FALSE, pre |-> "failed"],
            [op |-> "blocked", rl |-> <<>>, by |-> "none", open |-> FALSE],
            [op |-> "blocked", rl |-> AllRxns(m), by |-> "obj", open |-> TRUE],
-           [op |-> "fastcc"]>>
+           [op |-> "fastcc"],
+           \* (pre = "other": the same analysis ran on this model object just before while the model was in another
+           \* state -- first boundary reaction closed -- and the state was put back; not judged, must not matter)
+           [op |-> "fastcc", pre |-> "other"], [op |-> "blocked", rl |-> <<>>, by |-> "none", open |-> TRUE, pre |-> "other"]>>
          \* identifiers instead of objects: a pinned witness per instance of the larger topologies
          \o (IF NR(m) >= 4 THEN <<[op |-> "blocked", rl |-> AllRxns(m), by |-> "id", open |-> FALSE]>> ELSE <<>>)
     [] Prop = "C17" ->
          IF ~HasOpt(m) THEN <<>>
          ELSE <<[op |-> "loopless_solution", start |-> "opt", ar |-> 1, ad |-> "max"],
                 [op |-> "loopless_solution", start |-> "none", ar |-> 1, ad |-> "max"],
+                [op |-> "loopless_solution", start |-> "none", ar |-> 1, ad |-> "max", pre |-> "other"],
                 [op |-> "add_loopless"]>>
               \* the constraints are added while a cycle reaction is knocked out; its bounds come back
               \* before the optimisation (the loop law must hold for the model as it is optimised)
